@@ -443,6 +443,29 @@ def gen_con_case(rng):
     return {'f': f, 'gts': gts, 'eqs': eqs, 'p': rng.choice([0, 0, 1]), 'q': rng.choice([1, 1, 2]), 'ell': rng.choice([0, 0, 1])}
 
 
+def gen_odd_case(rng):
+    """even monomials plus an ODD linear term, over boxes / discs given by inequality constraints, with NON-CONSTANT multipliers
+    (p = 1): the minimum sits in an orthant with a negative coordinate, and the multipliers have odd monomials of their own"""
+    n = 2
+    j = rng.randrange(n)
+    rows = [[F(2), F(0)], [F(0), F(2)]]
+    c = [F(rng.choice([1, 1, 2])), F(rng.choice([1, 1, 2]))]
+    if rng.random() < 0.4:
+        rows.append([F(2), F(2)])
+        c.append(F(1))
+    if rng.random() < 0.3:
+        rows.append([F(1), F(1)])
+        c.append(F(rng.choice([1, -1])))
+    rows.append([F(1) if k == j else F(0) for k in range(n)])
+    c.append(F(rng.choice([1, -1, 2])))
+    f = rm.sig_leaf(rows, c, poly=True)
+    r = F(rng.choice([1, 4]))
+    box = [rm.sig_leaf([[F(0)] * n, [F(2) if k == i else F(0) for k in range(n)]], [r, F(-1)], poly=True) for i in range(n)]
+    disc = rm.sig_leaf([[F(0)] * n] + [[F(2) if k == i else F(0) for k in range(n)] for i in range(n)], [F(4)] + [F(-1)] * n, poly=True)
+    gts = rng.choice([box, [disc], box + [disc], [box[j]]])
+    return {'f': f, 'gts': gts, 'eqs': [], 'p': 1, 'q': rng.choice([1, 1, 2]), 'ell': 0}
+
+
 def stream_lagrangian(ctx, rng, N, given=None):
     import props.c04 as c04
     from sageopt.relaxations.sage_polys import make_poly_lagrangian
@@ -695,6 +718,7 @@ def run(ctx):
                 f['c'].append('1')
     audit_relax(ctx, rng, cases[:30 if quick else 200])
     audit_constrained(ctx, rng, extra)
+    audit_constrained(ctx, rng, [gen_odd_case(rng) for _ in range(5 if quick else 30)])
     audit_constrained(ctx, rng, ccases[:15 if quick else 100])
     if (not ctx.lean.ok or ctx.disagreements) and not ctx.violations:
         common.broken_report(ctx, 'signomial-representative oracle and bound audits over all orthants found no failing input')
